@@ -19,7 +19,7 @@ import numpy
 PROPERTY = "C16"
 LEVEL = "exploration"
 NEED_EXT = False
-REQUIRED = ["enumerate", "str", "debug.outputs_unchanged", "debug.records", "debug.chain", "dot.parsed",
+REQUIRED = ["enumerate", "str", "debug.outputs_unchanged", "debug.records", "debug.chain", "debug.copy_history", "dot.parsed",
             "dot.reachability"]
 RULE = ("pipelines drawn from the grammar with depth <= 3 (thorough 4), width <= 3, over DataFrame / ndarray / "
         "list-of-names schemas; only programs scikit-learn itself fits are in the domain; non-trivial = >= 3 estimators with a "
@@ -487,6 +487,45 @@ def run_case(case, ctx):
                         ctx.violation(K + "debug/union-member-input", "a FeatureUnion member's recorded input is not "
                                       "the union's input", cfg=cfg)
                         break
+    # ---- history: the altered pipeline is deep-copied and the copy is fitted again on other rows.  The copy still
+    # answers like an untouched pipeline given the same fit, keeps its records on its own steps and leaves the
+    # original's records alone
+    if calls and case["sub"] % 2 == 0:
+        import copy
+        d2 = data.iloc[3:] if schema != "array" else data[3:]
+        y2 = None if y is None else numpy.asarray(y)[3:]
+        try:
+            ref = clone(pipe)
+            ref.fit(d2, y2)
+            want = {m: numpy.asarray(getattr(ref, m)(Xb)) for m in methods if before[m] is not None}
+            cp = copy.deepcopy(pipe)
+        except Exception:
+            ctx.excluded("copy history: clone / deepcopy / refit not possible for this program")
+            want = None
+        if want is not None:
+            orig_rec = {m: pipe._debug.inputs.get(m) for m in methods} if getattr(pipe, "_debug", None) else {}
+            try:
+                cp.fit(d2, y2)
+                for m in want:
+                    got_m = numpy.asarray(getattr(cp, m)(Xb))
+                    ctx.hit("debug.copy_history")
+                    if got_m.shape != want[m].shape or not numpy.allclose(got_m, want[m], rtol=1e-9, atol=1e-12,
+                                                                          equal_nan=True):
+                        ctx.violation(K + "debug/copy-refit/output-differs", "a deep copy of the altered pipeline, fitted "
+                                      "again, gives another %s than an untouched pipeline given the same fit" % m, cfg=cfg)
+                        break
+                    cd = getattr(cp, "_debug", None)
+                    if cd is None or cd.inputs.get(m) is not Xb:
+                        ctx.violation(K + "debug/copy-refit/record-not-last-input", "the copy's record for %s is not "
+                                      "the input of its last call" % m, cfg=cfg)
+                        break
+                for m, rec in orig_rec.items():
+                    if pipe._debug.inputs.get(m) is not rec:
+                        ctx.violation(K + "debug/copy-refit/original-records-overwritten", "calls on the copy replaced the "
+                                      "original pipeline's record for %s" % m, cfg=cfg)
+                        break
+            except Exception as e:
+                ctx.violation(K + "debug/copy-refit/raised/%s" % type(e).__name__, str(e)[:150], cfg=cfg)
     if len(exp) >= 3 and (has_ct or has_union):
         ctx.nontriv(desc)
     ctx.sample({"program": desc, "schema": schema, "n_models": len(exp)})
